@@ -409,3 +409,45 @@ func init() {
 	}
 	externals["(*sync.Pool).Put"] = func(fr *frame, a []value) value { return nil }
 }
+
+func init() {
+	// substring search on symbolic text (strings.Index / Contains / Replace
+	// end up here): the first position at which the needle matches, decided
+	// position by position
+	indexSym := func(hay, needle []value) int {
+		if len(needle) == 0 {
+			return 0
+		}
+		for i := 0; i+len(needle) <= len(hay); i++ {
+			cs := []*Term{}
+			for j := range needle {
+				cs = append(cs, mkEq(byteTerm(hay[i+j]), byteTerm(needle[j])))
+			}
+			if theEx.decide(mkAnd(cs...), "indexstring") {
+				return i
+			}
+		}
+		return -1
+	}
+	externals["internal/bytealg.IndexString"] = func(fr *frame, a []value) value {
+		if s, ok := goString(a[0]); ok {
+			if t, ok := goString(a[1]); ok {
+				return strings.Index(s, t)
+			}
+		}
+		h, ok1 := strCells(a[0])
+		n, ok2 := strCells(a[1])
+		if !ok1 || !ok2 {
+			theEx.unsupported("IndexString on opaque text")
+		}
+		return indexSym(h, n)
+	}
+	externals["internal/bytealg.Index"] = func(fr *frame, a []value) value {
+		h, ok1 := a[0].([]value)
+		n, ok2 := a[1].([]value)
+		if !ok1 || !ok2 {
+			theEx.unsupported("bytealg.Index on opaque bytes")
+		}
+		return indexSym(h, n)
+	}
+}
